@@ -1,7 +1,9 @@
 """C19 -- serialized objects round-trip exactly; malformed archives are rejected safely.
 
 Can also be run as `python3 checks/C19.py --wrap <exe>`: a line-protocol supervisor that restarts the harness after a
-crash (sanitizer abort, signal) so that exactly the crashing input is reported as `<crash ...>`."""
+crash (sanitizer abort, signal) so that exactly the crashing input is reported as `<crash ...>`, and after the harness's
+per-case watchdog fired (`<op> HANG ...`, exit status 75).  It gives up after a few hangs / a time budget (`<not-run>` for the
+rest): a defect must show up as a concrete failing case inside the time budget, never as a time-out of the runner."""
 import os, sys, struct, subprocess, re
 
 if __name__ == '__main__' and len(sys.argv) >= 3 and sys.argv[1] == '--wrap':
@@ -12,22 +14,44 @@ if __name__ == '__main__' and len(sys.argv) >= 3 and sys.argv[1] == '--wrap':
     out = []
     pos = 0
     restarts = 0
+    hangs = 0
+    import time
+    t_end = time.time() + float(os.environ.get('C19_PART_BUDGET_S', '600'))
     while pos < len(lines):
-        if restarts > 40:
+        if restarts > 40 or hangs > 6 or time.time() > t_end:
+            # enough concrete failing cases have been collected: never let a broken tree eat the time budget
             out += ['<not-run>'] * (len(lines) - pos)
             break
-        p = subprocess.run(sys.argv[2:], input=('\n'.join(lines[pos:]) + '\n').encode(), capture_output=True)
-        got = p.stdout.decode(errors='replace').split('\n')
-        if got and got[-1] == '':
-            got.pop()
+        timed_out = False
+        try:
+            p = subprocess.run(sys.argv[2:], input=('\n'.join(lines[pos:]) + '\n').encode(), capture_output=True,
+                               timeout=max(5.0, t_end - time.time()))
+            so, se, rc = p.stdout, p.stderr, p.returncode
+        except subprocess.TimeoutExpired as e:
+            so, se, rc, timed_out = e.stdout or b'', e.stderr or b'', -9, True
+        got = so.decode(errors='replace').split('\n')
+        if got:
+            got.pop()          # '' behind the last newline, or a line cut short by a kill: only complete lines count
         if len(got) >= len(lines) - pos:
             out += got[:len(lines) - pos]
             break
-        # the harness died while working on line pos+len(got)
+        if got and rc == 75 and ' HANG ' in got[-1]:
+            # the harness's own watchdog answered for the case that ran over its budget and left: go on with the next case
+            out += got
+            pos += len(got)
+            restarts += 1
+            hangs += 1
+            continue
+        # the harness died (or was killed by the supervisor's own time limit) while working on line pos+len(got)
         out += got
-        err = p.stderr.decode(errors='replace')
-        m = re.search(r'(ERROR: \w+: [^\n]*|runtime error: [^\n]*|terminate called[^\n]*)', err)
-        out.append('<crash rc=%d> %s' % (p.returncode, (m.group(1) if m else err[-200:]).replace('\n', ' | ')))
+        bad = lines[pos + len(got)].split(' ', 1)[0]
+        if timed_out:
+            out.append('%s HANG supervisor-time-limit' % bad)
+            hangs += 1
+        else:
+            err = se.decode(errors='replace')
+            m = re.search(r'(ERROR: \w+: [^\n]*|runtime error: [^\n]*|terminate called[^\n]*|hard rss limit exhausted[^\n]*)', err)
+            out.append('<crash rc=%d> %s' % (rc, (m.group(1) if m else err[-200:]).replace('\n', ' | ')))
         pos += len(got) + 1
         restarts += 1
     sys.stdout.write('\n'.join(out) + ('\n' if out else ''))
@@ -47,15 +71,20 @@ META = dict(
                 'an accepted chunk lies inside the buffer (the repaired bounds test, mod 2^64); the loader never reads outside the '
                 'buffer for any input and start position; it ends with a value that was read from inside the buffer and is not larger '
                 'than the bytes consumed, or with one of the five archive exceptions; load(save v) = v ending exactly at the end, also '
-                'embedded in a larger archive; every strict truncation of a valid archive is rejected; a length field that over-runs '
+                'embedded in a larger archive; the read position after a load stands exactly behind the bytes save produced (empty POD vectors, '
+                'strings and containers included), so objects saved one after another into one archive are loaded back one after another '
+                '(load_all (enc_all l) = l); fetch_data after store_data returns the object, also after the session map went through '
+                'save_data/load_data of the next request; every strict truncation of a valid archive is rejected; a length field that over-runs '
                 'the rest of the archive is rejected by the chunk reader and by every loader that meets it; a successful load is '
                 'unchanged by appended data. Session map format (session_interface save_data/load_data, which carries every object '
                 'stored with store_data): load_data(save_data m) = m, the rebuilt map equals m for distinct keys, load_data of arbitrary '
                 'bytes returns records that tile the buffer exactly or throws, never reads outside. The comparisons and pointer updates '
-                'of archive::eof/next_chunk_size/read_chunk/read_chunk_as_string/write_chunk and the limits, bit-field widths and bounds '
+                'of archive::eof/next_chunk_size/read_chunk/read_chunk_as_string/write_chunk, the statement sequence and size expressions of the '
+                'std::vector<arithmetic> loader/saver (macro CPPCMS_TRIVIAL_ARCHIVE) and the element loop of the container loaders in '
+                'cppcms/archive_traits.h, and the limits, bit-field widths and bounds '
                 'tests of the session format are cut from the current source text, translated by cxx2v and proved equal to the model '
-                '(Link.v: chunk reader and load_data assembled from the generated leafs = the model); everything else is tied '
-                'by running the extracted model and the real archive classes (41 concrete C++ types incl. five user classes, also '
+                '(Link.v, LinkTraits.v: chunk reader, POD-vector loader, container loop and load_data assembled from the generated leafs = the model); everything else is tied '
+                'by running the extracted model and the real archive classes (52 concrete C++ types incl. six user classes, also '
                 'through session_interface / cache_interface store_data/fetch_data) on the same inputs.'),
     level_note=('Trusted: Coq kernel + vm_compute; ExtrOcamlBasic extraction; the hand model of archive.cpp / archive_traits.h (tied by '
                 'correspondence on generated cases, not verified against the C++ text, except the leaf expressions named above; the regular-'
@@ -66,7 +95,8 @@ META = dict(
                 'digits do not survive the writer (C11) and are excluded from the round-trip domain (hypothesis json_fix).'),
 )
 
-LEAFS = ['c19_eof', 'c19_hdr_short', 'c19_overrun', 'c19_badlen', 'c19_rc_start', 'c19_rc_end', 'c19_rs_start', 'c19_rs_end', 'c19_wc_size',
+TRAIT_LEAFS = ['c19_pv_count', 'c19_pv_len', 'c19_pv_savelen', 'c19_ct_more', 'c19_ct_next', 'c19_ptr_flag', 'c19_ptr_saves', 'c19_ptr_isnull']
+LEAFS = TRAIT_LEAFS + ['c19_eof', 'c19_hdr_short', 'c19_overrun', 'c19_badlen', 'c19_rc_start', 'c19_rc_end', 'c19_rs_start', 'c19_rs_end', 'c19_wc_size',
          'c19_s_keylong', 'c19_s_vallong', 'c19_s_hdr', 'c19_s_fits', 'c19_s_more', 'c19_s_word']
 LEAF_TU = os.path.join(vlib.WORK, 'C19', 'C19_archive_leafs.cpp')
 GEN = {'Gen_C19': dict(src=LEAF_TU, incs=[], functions=[(n, 'g_' + n) for n in LEAFS])}
@@ -116,6 +146,121 @@ def session_leafs():
         % (kb, eb, kb, db, kb + eb)]
 
 
+def traits_leafs():
+    """cppcms/archive_traits.h, macro CPPCMS_TRIVIAL_ARCHIVE: the load/save of std::vector<arithmetic type> is its own code path
+    (element count derived from the chunk size, resize, read_chunk with a possibly null pointer).  Its statement sequence is checked
+    against the sequence the model was written for (TPodVec case of load / enc in coq/C19/Defs.v) and its two size expressions are cut
+    out for cxx2v; the same for the count loop of the generic containers.  An added early return, a dropped read_chunk, a changed
+    divisor or loop bound is reported as a broken tie (in addition to what the correspondence run finds)."""
+    src = open(os.path.join(vlib.REPO, 'cppcms', 'archive_traits.h')).read()
+    src = re.sub(r'/\*.*?\*/', '', src, flags=re.S)
+    src = src.replace('\\\n', ' ')
+    src = re.sub(r'//[^\n]*', '', src)
+    src = ' '.join(src.split())
+    src = re.sub(r' ?([(){};,=*/&<>!+]) ?', r'\1', src)       # spacing around punctuation is irrelevant
+    E = r'([^;{}]*?)'
+    m0 = re.search(r'#define CPPCMS_TRIVIAL_ARCHIVE\(Type\)namespace cppcms\{template<>struct archive_traits<std::vector<Type>>\{typedef std::vector<Type>vec;'
+                   r'static void save\(vec const&v,archive&a\)\{void const\*p=0;size_t len=' + E + r';if\(!v\.empty\(\)\)p=&v\.front\(\);a\.write_chunk\(p,len\);\}'
+                   r'static void load\(vec&v,archive&a\)\{size_t n=' + E + r';v\.clear\(\);v\.resize\(n\);void\*p=0;if\(!v\.empty\(\)\)p=&v\.front\(\);'
+                   r'a\.read_chunk\(p,' + E + r'\);\}\};', src)
+    m1 = re.search(r'template<>struct archive_traits<Type>\{static void save\(Type const d,archive&a\)\{a\.write_chunk\(&d,sizeof\(d\)\);\}'
+                   r'static void load\(Type&d,archive&a\)\{a\.read_chunk\(&d,sizeof\(d\)\);\}\};', src)
+    m2 = re.search(r'template<typename T>void archive_load_container\(T&v,archive&a\)\{size_t n;archive_traits<size_t>::load\(n,a\);v\.clear\(\);'
+                   r'std::insert_iterator<T>it\(v,v\.begin\(\)\);typedef typename T::value_type value_type;'
+                   r'for\(size_t i=0;' + E + r';' + E + r'\)\{value_type tmp;archive_traits<value_type>::load\(tmp,a\);\*it\+\+=tmp;\}\}', src)
+    m3 = re.search(r'static void load\(cont&v,archive&a\)\{size_t n;archive_traits<size_t>::load\(n,a\);v\.clear\(\);typedef std::pair<V1,V2>pair_type;'
+                   r'for\(size_t i=0;' + E + r';' + E + r'\)\{pair_type tmp;archive_traits<pair_type>::load\(tmp,a\);v\.insert\(tmp\);\}\}', src)
+    m4 = re.search(r'static void load\(std::string&o,archive&a\)\{std::string res=a\.read_chunk_as_string\(\);res\.swap\(o\);\}', src)
+    # smart pointers (both macros): flag byte written / tested
+    PS = (r'static void save\(pointer const&d,archive&a\)\{char empty=' + E + r';a\.write_chunk\(&empty,1\);if\(' + E + r'\)\{archive_traits<V>::save\(\*d,a\);\}\}'
+          r'static void load\(pointer&d,archive&a\)\{char empty;a\.read_chunk\(&empty,1\);if\(' + E + r'\)\{')
+    m5 = re.search(r'#define CPPCMS_ARCHIVE_SMART_POINTER\(SmartPtr\)namespace cppcms\{template<typename V>struct archive_traits<SmartPtr<V>>\{typedef SmartPtr<V>pointer;'
+                   + PS + r'd\.reset\(\);\}else\{d\.reset\(new V\(\)\);archive_traits<V>::load\(\*d,a\);\}\}\};\}', src)
+    m6 = re.search(r'#define CPPCMS_ARCHIVE_INTRUSIVE_POINTER\(SmartPtr\)namespace cppcms\{template<typename V>struct archive_traits<SmartPtr<V>>\{typedef SmartPtr<V>pointer;'
+                   + PS + r'd=0;\}else\{d=new V\(\);archive_traits<V>::load\(\*d,a\);\}\}\};\}', src)
+    # pair (members in declaration order), json (the WHOLE chunk must be one value: load(ss,true)), container writer (count, then every element)
+    m7 = re.search(r'struct archive_traits<std::pair<F,S>>\{static void save\(std::pair<F,S>const&d,archive&a\)\{archive_traits<F>::save\(d\.first,a\);'
+                   r'archive_traits<S>::save\(d\.second,a\);\}static void load\(std::pair<F,S>&d,archive&a\)\{archive_traits<F>::load\(d\.first,a\);'
+                   r'archive_traits<S>::load\(d\.second,a\);\}\};', src)
+    m8 = re.search(r'static void load\(json::value&v,archive&a\)\{std::istringstream ss;ss\.str\(a\.read_chunk_as_string\(\)\);if\(!v\.load\(ss,true\)\)\{?'
+                   r'throw archive_error\("Invalid json"\);\}?\}', src)
+    m9 = re.search(r'void archive_save_container\(T const&v,archive&a\)\{typename T::const_iterator it;typedef typename T::value_type value_type;size_t n=v\.size\(\);'
+                   r'archive_traits<size_t>::save\(n,a\);for\(it=v\.begin\(\);it!=v\.end\(\);\+\+it\)\{archive_traits<value_type>::save\(\*it,a\);\}\}', src)
+    bad = [n for n, m in (('vector<POD> save/load', m0), ('POD save/load', m1), ('archive_load_container', m2), ('map load', m3), ('string load', m4),
+                          ('smart pointer save/load', m5), ('intrusive pointer save/load', m6), ('pair save/load', m7), ('json load', m8),
+                          ('archive_save_container', m9)) if not m]
+    if bad:
+        return ('cppcms/archive_traits.h: %s no longer %s the statement sequence the model was written for (an added early return, a removed '
+                'read_chunk ...): the model of that code path is not tied to this source any more' % (', '.join(bad), 'have' if len(bad) > 1 else 'has'))
+    if (m2.group(1), m2.group(2)) != (m3.group(1), m3.group(2)):
+        return 'cppcms/archive_traits.h: the element loops of archive_load_container and of the map loader differ'
+    savelen = m0.group(1).replace('v.size()', 'cnt').replace('sizeof(Type)', 'sz')
+    count = m0.group(2).replace('a.next_chunk_size()', 'chunk').replace('sizeof(Type)', 'sz')
+    rlen = m0.group(3).replace('sizeof(Type)', 'sz')
+    if m5.groups() != m6.groups():
+        return 'cppcms/archive_traits.h: the two smart pointer macros differ in their flag expressions'
+    if m5.group(1) != 'd.get()==0':
+        return 'cppcms/archive_traits.h: smart pointer save: the flag is no longer `d.get()==0`: ' + m5.group(1)
+    for g in (savelen, count, rlen, m2.group(1), m2.group(2), m5.group(2), m5.group(3)):
+        if re.search(r'[^\w\s<>=!+\-*/()]', g) or re.search(r'\b(?!cnt\b|sz\b|chunk\b|n\b|i\b|empty\b)[A-Za-z_]\w*', g):
+            return 'cppcms/archive_traits.h: expression outside the translatable subset: ' + g
+    return [
+        '// from cppcms/archive_traits.h, CPPCMS_TRIVIAL_ARCHIVE: archive_traits<std::vector<Type>> (a.next_chunk_size() -> chunk, sizeof(Type) -> sz, v.size() -> cnt)',
+        'size_t c19_pv_count(size_t chunk, size_t sz) { return %s; }' % count,
+        'size_t c19_pv_len(size_t n, size_t sz) { return %s; }' % rlen,
+        'size_t c19_pv_savelen(size_t cnt, size_t sz) { return %s; }' % savelen,
+        '// element loop of archive_load_container / CPPCMS_CONTAINER_ARCHIVE2: for(size_t i=0; <cond>; <step>)',
+        'bool c19_ct_more(size_t i, size_t n) { return %s; }' % m2.group(1),
+        # cxx2v has no statement-level ++: i++ / ++i are written i+=1 (any other step is copied verbatim)
+        'size_t c19_ct_next(size_t i) { %s; return i; }' % ('i+=1' if m2.group(2) in ('i++', '++i') else m2.group(2)),
+        '// smart pointer macros: char empty = d.get()==0 (isnull); if(<cond>) save the pointee; if(<cond>) reset() else load the pointee',
+        'char c19_ptr_flag(bool isnull) { char empty = isnull; return empty; }',
+        'bool c19_ptr_saves(char empty) { if(%s) { return true; } return false; }' % m5.group(2),
+        'bool c19_ptr_isnull(char empty) { if(%s) { return true; } else { return false; } }' % m5.group(3)]
+
+
+def wrapper_probe():
+    """the convenience calls that wrap the archive (model: coq/C19/StoreFetch.v: store_data = set(key, archive bytes), fetch_data = load
+    from get(key) at position 0): statement sequences of session_interface::store_data/fetch_data, cache_interface::store_data/fetch_data
+    and serialization_traits<serializable>::save/load.  Returns an error text when one of them is no longer what the model was written for."""
+    def norm(rel):
+        src = open(os.path.join(vlib.REPO, rel)).read()
+        src = re.sub(r'/\*.*?\*/', '', src, flags=re.S)
+        src = re.sub(r'//[^\n]*', '', src)
+        src = ' '.join(src.split())
+        return re.sub(r' ?([(){};,=*/&<>!+:]) ?', r'\1', src)
+    want = [
+        ('cppcms/session_interface.h', 'session_interface::store_data',
+         r'void store_data\(std::string const&key,Serializable const&object\)\{std::string buffer;serialization_traits<Serializable>::save\(object,buffer\);set\(key,buffer\);\}'),
+        ('cppcms/session_interface.h', 'session_interface::fetch_data',
+         r'void fetch_data\(std::string const&key,Serializable&object\)\{std::string buffer=get\(key\);serialization_traits<Serializable>::load\(buffer,object\);\}'),
+        ('cppcms/cache_interface.h', 'cache_interface::fetch_data',
+         r'bool fetch_data\(std::string const&key,Serializable&data,bool notriggers=false\)\{std::string buffer;if\(!fetch\(key,buffer,notriggers\)\)return false;'
+         r'serialization_traits<Serializable>::load\(buffer,data\);return true;\}'),
+        ('cppcms/cache_interface.h', 'cache_interface::store_data',
+         r'int timeout=-1,bool notriggers=false\)\{std::string buffer;serialization_traits<Serializable>::save\(data,buffer\);store\(key,buffer,triggers,timeout,notriggers\);\}'),
+        ('cppcms/serialization_classes.h', 'serialization_traits<serializable>::load',
+         r'static void load\(std::string const&serialized_object,serializable_base&real_object\)\{archive a;a\.str\(serialized_object\);real_object\.load\(a\);\}'),
+        ('cppcms/serialization_classes.h', 'serialization_traits<serializable>::save',
+         r'static void save\(serializable_base const&real_object,std::string&serialized_object\)\{archive a;real_object\.save\(a\);serialized_object=a\.str\(\);\}'),
+        ('cppcms/serialization_classes.h', 'operator& / << / >>',
+         r'archive&operator&\(archive&a,Archivable&object\)\{if\(a\.mode\(\)==archive::save_to_archive\)archive_traits<Archivable>::save\(object,a\);else archive_traits<Archivable>::load\(object,a\);return a;\}'
+         r'.{0,80}?archive&operator<<\(archive&a,Archivable const&object\)\{archive_traits<Archivable>::save\(object,a\);return a;\}'
+         r'.{0,80}?archive&operator>>\(archive&a,Archivable&object\)\{archive_traits<Archivable>::load\(object,a\);return a;\}'),
+    ]
+    cache = {}
+    bad = []
+    for rel, name, rx in want:
+        if rel not in cache:
+            cache[rel] = norm(rel)
+        if not re.search(rx, cache[rel]):
+            bad.append('%s (%s)' % (name, rel))
+    if bad:
+        return ('%s no longer %s the statement sequence the model was written for (coq/C19/StoreFetch.v, Object.v): the model of the convenience '
+                'calls is not tied to this source any more' % (', '.join(bad), 'have' if len(bad) > 1 else 'has'))
+    return None
+
+
 def make_leaf_tu():
     """cut the comparisons and pointer updates of the chunk reader/writer out of the CURRENT text of src/archive.cpp (verbatim, with
     buffer_.size() renamed to the parameter bsz) into a translation unit of loop-free integer functions for tools/cxx2v.py.
@@ -154,6 +299,12 @@ def make_leaf_tu():
     sess = session_leafs()
     if isinstance(sess, str):
         return sess
+    tr = traits_leafs()
+    if isinstance(tr, str):
+        return tr
+    wp = wrapper_probe()
+    if wp:
+        return wp
     tu = '\n'.join([
         '// GENERATED by checks/C19.py from src/archive.cpp (expressions copied verbatim; buffer_.size() -> bsz)',
         '#include <stddef.h>', '#include <stdint.h>',
@@ -165,7 +316,7 @@ def make_leaf_tu():
         'size_t c19_rc_end(size_t ptr_, size_t len) { %s %s return ptr_; }' % (got['rc'][1], got['rc'][2]),
         'size_t c19_rs_start(size_t ptr_) { return %s; }' % got['rs'][0],
         'size_t c19_rs_end(size_t ptr_, size_t size) { %s return ptr_; }' % got['rs'][1],
-        'uint32_t c19_wc_size(size_t len) { %s return size; }' % got['wc'][0]] + sess + [''])
+        'uint32_t c19_wc_size(size_t len) { %s return size; }' % got['wc'][0]] + sess + tr + [''])
     vlib.write_if_changed(LEAF_TU, tu)
     return None
 
@@ -177,8 +328,14 @@ M32 = 1 << 32
 # ------------------------------------------------------------------------------------------------
 TYPES = ['p4', 'p1', 'p8', 'p8', 's', 'v1', 'v2', 'v4', 'v8', 'Ls', 'LPp4s', 'Ss', 'Sp4', 'Msv4', 'Mp4Sp2', 'Os', 'LOLs', 'LLs',
          'Pp1p8', 'SPp4s', 'J', 'LJ', 'MsJ', 'Pp4Psv8', 'Pp8Pp12Pss', 'PsPp8PMp4sPOPp4Psv8PLPp8Pp12PssJ', 'MsPp4Psv8', 'OLp8',
-         'LMp2Os', 'Lv4', 'Os', 'Ov4', 'Os', 'LOPp2s', 's', 'Bp4', 'Nsp2', 'OPp4s', 'p4', 'v16', 'Mp4Bs']
-SERIALIZABLE = [23, 24, 25, 34]      # rec2, rec3, rec1: classes derived from serializable_base (session/cache store_data)
+         'LMp2Os', 'Lv4', 'Os', 'Ov4', 'Os', 'LOPp2s', 's', 'Bp4', 'Nsp2', 'OPp4s', 'p4', 'v16', 'Mp4Bs',
+         # 41.. : empty POD vectors / strings / containers that are NOT the last item of the archive
+         'Pv4s', 'Lv4', 'Psp4', 'LPv1v8', 'Mp4v1', 'POv2s', 'PSp4PLsp4', 'Pv1PsPv4PLsPMp4v2PLv8p4', 'LLv2', 'Mv2s', 'LPsv1']
+SERIALIZABLE = [23, 24, 25, 34, 48]  # rec2, rec3, rec1, cl_str, rec4: classes derived from serializable_base (session/cache store_data)
+
+
+# sq (sequence of objects in one archive): json needs the verdict table, multiset/multimap are written in C++ order
+SEQ_EXCLUDED = set(i for i, sp in enumerate(TYPES) if any(ch in sp for ch in 'JBN'))
 
 
 def parse_spec(s):
@@ -405,6 +562,8 @@ def ckey(t, v):
         return int.from_bytes(v, 'little', signed=True)
     if k == 's':
         return v
+    if k == 'v':
+        return tuple(int.from_bytes(v[i:i + t[1]], 'little', signed=True) for i in range(0, len(v), t[1]))
     if k == 'P':
         return (ckey(t[1], v[0]), ckey(t[2], v[1]))
     raise ValueError('no ordering for ' + k)
@@ -576,6 +735,101 @@ def one_each(t):
     return ()
 
 
+# ---- empty strings / POD vectors / containers / null pointers at every position of a composite value ----
+def empty_paths(t, path=(), depth=0):
+    """paths of all node instances of the FULL value of type t (containers with 3 elements, 2 below depth 1) that can be made empty"""
+    k = t[0]
+    out = []
+    n = 3 if depth < 2 else 2
+    if k in 'sv':
+        out.append(path)
+    elif k in 'LSB':
+        out.append(path)
+        for i in range(n):
+            out += empty_paths(t[1], path + (i,), depth + 1)
+    elif k in 'MN':
+        out.append(path)
+        for i in range(n):
+            out += empty_paths(t[1], path + (i, 0), depth + 1)
+            out += empty_paths(t[2], path + (i, 1), depth + 1)
+    elif k == 'P':
+        out += empty_paths(t[1], path + (0,), depth)
+        out += empty_paths(t[2], path + (1,), depth)
+    elif k == 'O':
+        out.append(path)
+        out += empty_paths(t[1], path + (0,), depth + 1)
+    return out
+
+
+def normalize(t, v):
+    """sets / maps: distinct elements / keys in C++ order (making elements empty may have made them equal)"""
+    k = t[0]
+    if k == 'S':
+        d = {}
+        for x in v:
+            d.setdefault(ckey(t[1], x), x)
+        return [d[key] for key in sorted(d)]
+    if k == 'M':
+        d = {}
+        for a, b in v:
+            d.setdefault(ckey(t[1], a), (a, b))
+        return [d[key] for key in sorted(d)]
+    if k == 'B':
+        return sorted(v, key=lambda x: ckey(t[1], x))
+    if k == 'N':
+        return sorted(v, key=lambda p: ckey(t[1], p[0]))
+    return v
+
+
+def build_with_empties(t, empt, rng, path=(), depth=0):
+    """the full value of type t with exactly the node instances in `empt` empty (string "", vector {}, container {}, pointer null)"""
+    k = t[0]
+    n = 3 if depth < 2 else 2
+    if k == 'p':
+        return bytes([rng.randrange(1, 256)]) + rbytes(rng, t[1] - 1)
+    if k == 's':
+        return b'' if path in empt else bytes(rng.choice(b'ab\x00z\xff') for _ in range(rng.choice([1, 1, 2, 4])))
+    if k == 'v':
+        return b'' if path in empt else rbytes(rng, t[1] * rng.choice([1, 1, 2, 3]))
+    if k == 'J':
+        return ('j', gen_json(rng))
+    if k in 'LSB':
+        if path in empt:
+            return []
+        return normalize(t, [build_with_empties(t[1], empt, rng, path + (i,), depth + 1) for i in range(n)])
+    if k in 'MN':
+        if path in empt:
+            return []
+        return normalize(t, [(build_with_empties(t[1], empt, rng, path + (i, 0), depth + 1),
+                              build_with_empties(t[2], empt, rng, path + (i, 1), depth + 1)) for i in range(n)])
+    if k == 'P':
+        return (build_with_empties(t[1], empt, rng, path + (0,), depth), build_with_empties(t[2], empt, rng, path + (1,), depth))
+    if k == 'O':
+        return None if path in empt else ('&', build_with_empties(t[1], empt, rng, path + (0,), depth + 1))
+    return ()
+
+
+def empties_values(t, rng, npairs, nrand):
+    """values with: nothing empty; each single position empty; pairs / random subsets of positions empty; every leaf position empty"""
+    ps = empty_paths(t)
+    sets = [frozenset()] + [frozenset([q]) for q in ps]
+    if len(ps) >= 2:
+        allpairs = [(a, b) for i, a in enumerate(ps) for b in ps[i + 1:]]
+        for a, b in (allpairs if len(allpairs) <= npairs else rng.sample(allpairs, npairs)):
+            sets.append(frozenset([a, b]))
+        for _ in range(nrand):
+            sets.append(frozenset(q for q in ps if rng.random() < rng.choice([0.2, 0.5, 0.8])))
+        leafs = [q for q in ps if not any(r != q and r[:len(q)] == q for r in ps)]
+        sets.append(frozenset(leafs))
+        sets.append(frozenset(q for q in ps if len(q) >= 1))      # everything below the top level
+    seen = set()
+    for e in sets:
+        if e in seen:
+            continue
+        seen.add(e)
+        yield build_with_empties(t, e, rng)
+
+
 def header_mutations(length, remaining):
     """replacement values for a 4-byte length field whose true value is `length`, with `remaining` bytes after the field"""
     vals = set()
@@ -697,6 +951,7 @@ def gen_cases(ctx):
             seen.add(line)
             cases.append(line + ' j')
 
+    seq_pool = []
     nvals = ctx.scale(3, 14)
     max_tr_all = ctx.scale(160, 600)
     max_hdr = ctx.scale(10, 40)
@@ -764,6 +1019,20 @@ def gen_cases(ctx):
                 add('ld %s %s' % (pre, hexs(arch[:i] + arch[j:])))
                 add('ld %s %s' % (pre, hexs(arch[:i] + rbytes(rng, j - i) + arch[i:])))
             add('ld %s %s' % (pre, hexs(arch + arch)))
+        # empty string / POD vector / container / null pointer at every position of the full value (alone, in pairs, random subsets)
+        evs = list(empties_values(t, rng, ctx.scale(25, 200), ctx.scale(8, 60)))
+        add('rd %s %s %s' % (pre, text(t, min_value(t)), text(t, one_each(t))))
+        add('rd %s %s %s' % (pre, text(t, one_each(t)), text(t, min_value(t))))
+        for v in evs:
+            add('rt %s %s' % (pre, text(t, v)))
+            if tid in SERIALIZABLE:
+                add('sc %s %s' % (pre, text(t, v)))
+            if tid not in SEQ_EXCLUDED:
+                seq_pool.append((tid, v))
+            # the target of the load holds the FULL value (non-null pointers, non-empty containers/strings/vectors): everything must be replaced
+            add('rd %s %s %s' % (pre, text(t, v), text(t, evs[0])))
+        for _ in range(ctx.scale(12, 80)):
+            add('rd %s %s %s' % (pre, text(t, gen_value(t, rng)), text(t, rng.choice(evs) if rng.random() < 0.5 else gen_value(t, rng))))
         # more values for the round trip alone
         for _ in range(ctx.scale(30, 250)):
             v = gen_value(t, rng)
@@ -785,6 +1054,38 @@ def gen_cases(ctx):
             else:
                 b = rbytes(rng, n)
             add('ld %s %s' % (pre, hexs(b)))
+    # several objects saved one after another into ONE archive and loaded one after another (the archive is a concatenation;
+    # a load that does not leave the read position exactly behind its own bytes damages every later one)
+    def sq(items):
+        add('sq ' + ' '.join('%d %s %s' % (tid, TYPES[tid], text(spec_of(TYPES[tid]), v)) for tid, v in items))
+    seq_types = [i for i in range(len(TYPES)) if i not in SEQ_EXCLUDED]
+    for tid in seq_types:
+        t = spec_of(TYPES[tid])
+        mn, one = min_value(t), one_each(t)
+        sq([(tid, mn), (tid, one)])
+        sq([(tid, one), (tid, mn), (tid, one)])
+        sq([(tid, mn), (tid, mn), (tid, mn)])
+        sq([(tid, mn), (4, b'tail')])
+        sq([(4, b''), (tid, mn), (0, b'\x2a\x00\x00\x00')])
+        sq([(7, b''), (tid, one), (5, b''), (4, b'z')])
+    # exhaustive small domain: every sequence of 1..3 objects over {string, vector<char>, vector<int>, vector<string>, vector<vector<int>>,
+    # shared_ptr<string>, pair<string,int>} x {minimal value (empty / null), one-element value}: 14 + 14^2 + 14^3 = 2954 sequences
+    import itertools
+    small = [(tid, val(spec_of(TYPES[tid]))) for tid in (4, 5, 7, 9, 42, 15, 43) for val in (min_value, one_each)]
+    for n in (1, 2, 3):
+        for items in itertools.product(small, repeat=n):
+            sq(list(items))
+    for _ in range(ctx.scale(1500, 9000)):
+        items = []
+        for _ in range(rng.choice([2, 2, 3, 3, 4, 6])):
+            c = rng.randrange(4)
+            if c == 0 and seq_pool:
+                items.append(rng.choice(seq_pool))
+            else:
+                tid = rng.choice(seq_types)
+                t = spec_of(TYPES[tid])
+                items.append((tid, min_value(t) if c == 1 else one_each(t) if c == 2 and rng.random() < 0.3 else gen_value(t, rng)))
+        sq(items)
     # exhaustive small domain: every archive  <4-byte header h><n payload bytes>, h in 0..10 with each high byte variant,
     # n in 0..9, through string / char / vector<short> / shared_ptr<string> / vector<string>
     for tid in (4, 1, 6, 15, 9, 0):
@@ -804,7 +1105,8 @@ def gen_cases(ctx):
     gen_session_cases(ctx, add)
     # large objects (chunk sizes beyond 16 bits, many elements)
     big = [(4, rbytes(rng, 70000)), (8, rbytes(rng, 8 * 9000)), (9, [rbytes(rng, rng.randrange(0, 40)) for _ in range(ctx.scale(150, 500))]),
-           (12, None)]
+           (12, None), (9, [rbytes(rng, rng.randrange(0, 3)) for _ in range(ctx.scale(1100, 5000))]),
+           (42, [rbytes(rng, 4 * rng.randrange(0, 2)) for _ in range(ctx.scale(1100, 3000))])]
     nsmall = len(cases)
     for tid, v in big:
         spec = TYPES[tid]
@@ -819,6 +1121,8 @@ def gen_cases(ctx):
         pre = '%d %s' % (tid, spec)
         add('rt %s %s' % (pre, text(t, v)))
         n = len(arch)
+        if len(hdrs) > 1000 and tid in (9, 42):
+            continue          # the >1000-element lists: round trip only (the model's buffer access is linear in the offset)
         for k in sorted(set([0, 3, 4, 5, n // 2, n - 5, n - 4, n - 3, n - 2, n - 1, n])):
             add('tr %s %d %s' % (pre, k, hexs(arch)))
         off, kind, ln = hdrs[0]
@@ -879,17 +1183,35 @@ def check_loaded(op, t, arch, res):
 def oracle(case, out):
     c = case.split()
     op = c[0]
+    if out.startswith('<crash') and 'rss limit' in out:
+        return ('load-exhausts-memory' if op in ('ld', 'mu', 'muh', 'tr', 'scl', 'sd') else 'roundtrip-exhausts-memory',
+                'the case ran over its memory budget (allocation driven by archive contents, not bounded by the archive size): ' + out[:200])
     if out.startswith('<crash'):
         return ('crash-on-load' if op in ('ld', 'mu', 'muh', 'tr', 'scl') else 'crash-on-roundtrip',
                 'harness died on this input (memory error / abort): ' + out[:300])
     if out.startswith('<not-run>'):
         return None
+    if ' HANG ' in out[:40]:
+        # the per-case watchdog of the harness (CPU/wall budget) or of the supervisor fired: the case itself is the replay
+        return ('load-does-not-terminate' if op in ('ld', 'mu', 'muh', 'tr', 'scl', 'sd') else 'roundtrip-does-not-terminate',
+                'the case ran over its time budget (a loop driven by archive contents that no longer consumes the archive?): ' + out[:80])
     o = out.split()
     if not o or o[0] != op or 'BAD-' in out or 'NO-SERVICE' in out or 'NOT-SERIALIZABLE' in out:
         return ('bad-output-' + op, 'unexpected harness answer ' + out[:200])
     body = out[len(op) + 1:]
     if op in ('sd', 'ss'):
         return session_oracle(op, c, body, out)
+    # json members: the harness logs, for every json chunk a loader met, what the parser says about the WHOLE chunk (jl=chunk=verdict,
+    # obtained by a separate call of json::value::load(full=true)); a load that succeeded must not have met a chunk the parser rejects
+    mj = re.search(r' jl=(\S*)$', out)
+    if mj and '=!' in mj.group(1):
+        okpart = body.startswith('ok') if op in ('ld', 'mu', 'muh') else \
+            (' ok ptr=' in body) if op in ('rt', 'rd') else \
+            bool(re.match(r'^F:ok .* T:ok ', body)) if op == 'tr' else False
+        if okpart:
+            return ('invalid-json-accepted', 'a load succeeded although a json chunk it read is not one complete json value for the parser')
+    if op == 'sq':
+        return seq_oracle(c, body, out)
     t = spec_of(c[2])
     if op == 'ld':
         return check_loaded(op, t, unhex(c[3]), body)
@@ -921,7 +1243,7 @@ def oracle(case, out):
             if not mt or mt.group(1) != mf.group(1):
                 return ('load-depends-on-trailing-bytes', 'cutting bytes behind the object changed the result of the load')
         return None
-    if op == 'rt':
+    if op in ('rt', 'rd'):
         if 'SAVE-PATHS-DIFFER' in out:
             return ('save-paths-differ', 'operator<< and operator& (save mode) / archive copy give different bytes')
         m = re.match(r'^A=(\S+) (.*)$', body)
@@ -936,6 +1258,9 @@ def oracle(case, out):
             return r
         mm = re.search(r' eq=(\S+) eqd=(\S+)', res)
         mo = RE_OK.match(res)
+        if op == 'rd' and (not mm or mm.group(1) != '1' or mm.group(2) != '1'):
+            return ('load-into-used-object-keeps-old-state', 'loading into an object that holds other data does not replace all of it '
+                    '(a pointer / container / string that is null / empty in the archive keeps its old content): ' + (mm.group(0) if mm else '?'))
         if not mm or mm.group(1) != '1':
             return ('roundtrip-not-equal', 'the loaded object differs from the saved one')
         if mm.group(2) != '1':
@@ -985,6 +1310,39 @@ def oracle(case, out):
                     return ('returned-data-longer-than-bytes-read', 'fetch_data returned more data than the stored bytes hold')
         return None
     return ('bad-output-' + op, 'unknown op')
+
+
+def seq_oracle(c, body, out):
+    """objects saved one after another into one archive come back one after another, each load ending exactly where the bytes of
+    its object end (lengths from the independent python encoder), the last one at the end of the archive"""
+    items = [(spec_of(c[i + 1]), c[i + 2]) for i in range(1, len(c) - 1, 3)]
+    parts = body.split(' | ')
+    if len(parts) < 3 or not parts[0].startswith('A=') or not parts[-1].startswith('jl='):
+        return ('bad-output-sq', 'unexpected harness answer ' + out[:200])
+    arch = unhex(parts[0][2:])
+    res = parts[1:-1]
+    end = 0
+    for i, (t, vt) in enumerate(items):
+        if i >= len(res) or not res[i].startswith('ok'):
+            return ('sequence-load-fails', 'object %d of %d saved into one archive does not load: %s' % (i + 1, len(items), (res[i] if i < len(res) else '<missing>')[:60]))
+        m = re.match(r'^ok ptr=(\d+) eof=([01]) eq=([01]) v=(\S+)$', res[i])
+        if not m:
+            return ('bad-output-sq', 'unexpected harness answer ' + res[i][:200])
+        try:
+            want = parse_text(t, vt)
+            got = parse_text(t, m.group(4))
+        except BadText as e:
+            return ('bad-output-sq', str(e))
+        end += len(encode(t, want)[0])
+        if m.group(3) != '1' or canon(t, want) != canon(t, got):
+            return ('sequence-member-not-equal', 'object %d of %d saved one after another into one archive comes back different' % (i + 1, len(items)))
+        if int(m.group(1)) != end:
+            return ('sequence-cursor-wrong', 'after loading object %d the read position is %s, its bytes end at %d' % (i + 1, m.group(1), end))
+        if (m.group(2) == '1') != (end >= len(arch)):
+            return ('eof-inconsistent', 'eof() disagrees with the read position')
+    if end != len(arch):
+        return ('sequence-cursor-wrong', 'the archive has %d bytes, the objects saved into it have %d' % (len(arch), end))
+    return None
 
 
 def session_oracle(op, c, body, out):
@@ -1046,7 +1404,7 @@ def nontrivial(case, out):
     c = case.split()
     if c[0] in ('sd', 'ss'):
         return c[1] not in ('-', '[]')
-    if c[0] in ('rt', 'sc'):
+    if c[0] in ('rt', 'rd', 'sc', 'sq'):
         return True
     h = c[-2]
     return h != '-'
@@ -1064,12 +1422,16 @@ def classify(case, out):
     op = c[0]
     if op in ('sd', 'ss'):
         return 'session:%s:%s' % (op, 'ok' if ' ok ' in out or out.startswith('sd ok') else out[len(op) + 1:][:16])
+    if ' HANG ' in out[:40] or out.startswith('<'):
+        return '%s:%s' % (op, 'HANG' if ' HANG ' in out[:40] else out.split(' ')[0])
+    if op == 'sq':
+        return 'sq:%d:%s' % ((len(c) - 2) // 3, 'ok' if out.count(' | ok ') == (len(c) - 2) // 3 else 'fail')
     kinds = ''.join(sorted(set(ch for ch in c[2] if ch.isalpha())))
     body = out[len(op) + 1:]
     if op == 'tr':
         m = re.search(r' T:(\S+)', body)
         res = m.group(1) if m else '?'
-    elif op == 'rt':
+    elif op in ('rt', 'rd'):
         m = re.match(r'A=\S+ (\S+)', body)
         res = m.group(1) if m else '?'
     elif op == 'sc':
@@ -1086,7 +1448,7 @@ def classify(case, out):
 def with_json_verdicts(cases, exe):
     """the model's json parser is the real one: run the harness once on the cases that involve json and copy the verdicts
     it logged (chunk -> canonical text | rejected) into the case line (last token), where the model driver reads them."""
-    idx = [i for i, c in enumerate(cases) if c.split()[0] not in ('sd', 'ss') and 'J' in c.split()[2]] if cases else []
+    idx = [i for i, c in enumerate(cases) if c.split()[0] not in ('sd', 'ss', 'sq') and 'J' in c.split()[2]] if cases else []
     if not idx:
         return cases, 0
     rc, outs, err = vlib.run_lines_parallel(exe, [cases[i] for i in idx])
@@ -1111,6 +1473,30 @@ def strip_jtab(cases):
     return out
 
 
+def build_split(name, extra=(), asan=False, with_archive_cpp=False, archive_cpp=None):
+    """harness/C19_archive.cpp compiled as four translation units side by side (-DC19_PART=0..3: main + three slices of the type table;
+    the compile time is dominated by the template instantiations per type), then linked by vlib.build_harness."""
+    import concurrent.futures
+    objdir = os.path.join(vlib.WORK, 'C19', 'obj-' + name + ('-asan' if asan else ''))
+    os.makedirs(objdir, exist_ok=True)
+    flags = vlib.cxx_flags(asan) + list(extra)
+    src = os.path.join(vlib.VERIF, 'harness', 'C19_archive.cpp')
+    jobs = [(src, ['-DC19_PART=%d' % k], os.path.join(objdir, 'part%d.o' % k)) for k in range(4)]
+    if with_archive_cpp:
+        jobs.append((archive_cpp or os.path.join(vlib.REPO, 'src', 'archive.cpp'), [], os.path.join(objdir, 'archive.o')))
+
+    def cc(job):
+        s, d, o = job
+        p = vlib.sh(['g++'] + flags + d + ['-c', s, '-o', o], timeout=900)
+        return o, (p.stdout + p.stderr).decode(errors='replace')[-6000:] if p.returncode != 0 else ''
+    with concurrent.futures.ThreadPoolExecutor(len(jobs)) as ex:
+        rs = list(ex.map(cc, jobs))
+    for o, err in rs:
+        if err:
+            return None, err
+    return vlib.build_harness(name, [o for o, _ in rs], asan=asan, extra=extra)
+
+
 def run(ctx):
     e = make_leaf_tu()
     if e:
@@ -1119,13 +1505,13 @@ def run(ctx):
     errs = vlib.gen_coq(GEN)
     for n, e in errs:
         ctx.broke('translator cxx2v failed on %s (tie to source broken)' % n, e)
-    res = vlib.coq_props('C19', extra_files=['C19/Link.v'])
+    res = vlib.coq_props('C19', extra_files=['C19/Link.v', 'C19/LinkTraits.v'])
     ctx.proof(res)
     ctx.coverage['trusted_base'] = [
         'Coq 8.16.1 kernel, vm_compute (examples only)',
         'extraction: ExtrOcamlBasic only, OCaml 4.13.1',
         'hand model coq/C19/Defs.v of src/archive.cpp and cppcms/archive_traits.h (tied by correspondence)',
-        'harness/C19_archive.cpp (instantiates the real templates at 41 C++ types; `#define private public` only to read archive::ptr_), '
+        'harness/C19_archive.cpp (instantiates the real templates at 52 C++ types; `#define private public` only to read archive::ptr_), '
         'ocaml/C19_driver.ml, checks/C19.py (independent python encoder of the wire format, generators, oracle)',
         'the JSON parser/writer is external to the model: its verdict on every json chunk met is taken from the real parser (C11)',
         'g++ -fsanitize=address for harness + src/archive.cpp (both tiers); -fsanitize=address,undefined for the whole library (thorough tier)']
@@ -1141,11 +1527,12 @@ def run(ctx):
     # with AddressSanitizer (its definitions of archive::* take precedence over the library's), extracted model
     import concurrent.futures
     with concurrent.futures.ThreadPoolExecutor(3) as ex:
-        f2 = ex.submit(vlib.build_harness, 'C19_archive_san', ['C19_archive.cpp', os.path.join(vlib.REPO, 'src', 'archive.cpp')],
-                       extra=['-DC19_WITH_SERVICE', '-fsanitize=address', '-fno-omit-frame-pointer'])
+        # -g0: debug information doubles the compile time of this template-heavy file; ASan reports still name the functions
+        f2 = ex.submit(build_split, 'C19_archive_san', extra=['-DC19_WITH_SERVICE', '-fsanitize=address', '-fno-omit-frame-pointer', '-g0'],
+                       with_archive_cpp=True)
         f3 = ex.submit(lambda: (vlib.coq_make(['C19/SessDefs.vo']), vlib.build_model('C19', 'C19_driver.ml', 'c19m'))[1])
         # quick tier: only the sanitized harness (same sources, less CPU); thorough: also against the library's own archive.o
-        f1 = ex.submit(vlib.build_harness, 'C19_archive', ['C19_archive.cpp'], extra=['-DC19_WITH_SERVICE']) if not ctx.quick() else None
+        f1 = ex.submit(build_split, 'C19_archive', extra=['-DC19_WITH_SERVICE', '-g0']) if not ctx.quick() else None
         sexe, serr = f2.result()
         mexe, merr = f3.result()
         pexe, perr = f1.result() if f1 else (None, '')
@@ -1157,7 +1544,7 @@ def run(ctx):
     if not mexe:
         ctx.broke('model extraction/build failed', merr)
     exe = sexe
-    san_env = {'ASAN_OPTIONS': 'detect_leaks=0:abort_on_error=0:allocator_may_return_null=1', 'UBSAN_OPTIONS': 'print_stacktrace=0'}
+    san_env = {'ASAN_OPTIONS': 'detect_leaks=0:abort_on_error=0:allocator_may_return_null=1:hard_rss_limit_mb=2500', 'UBSAN_OPTIONS': 'print_stacktrace=0'}
     os.environ.update(san_env)
     # the type table of the harness must be the one the generators assume
     rc, tl, _ = vlib.run_lines(exe, ['types'])
@@ -1171,7 +1558,7 @@ def run(ctx):
         cases = strip_jtab(vlib.corpus_cases('C19')) + gen_cases(ctx)
     cases, nj = with_json_verdicts(cases, wrap + [exe])
     ctx.coverage['rule'] = (
-        'cases: op, type id, type spec, input (hex archive or value text), json verdict table. For each of 41 C++ types (PODs, string, '
+        'cases: op, type id, type spec, input (hex archive or value text), json verdict table. For each of 52 C++ types (PODs, string, '
         'POD vectors, vector/list/set/map/pair nests, shared_ptr/copy_ptr/hold_ptr/clone_ptr/unique_ptr/intrusive_ptr, multiset/multimap, wchar_t, long double, json::value, 5 user classes): the minimal value, the '
         'one-element value and seeded random values are saved and loaded back (rt: fresh and used target, operator<< and operator&, '
         'copy of the archive; sc: session_interface and cache_interface store_data/fetch_data); of each saved archive EVERY truncation '
@@ -1181,10 +1568,15 @@ def run(ctx):
         'high-byte variants><0..9 bytes> for 6 types. Session map format: sd = bytes handed to session_interface::load() by a custom storage '
         'backend (truncations, header mutations, doubled strings, exhaustive small headers, random), ss = entries set/exposed, saved and loaded by '
         'the next session object (size limits 1023/1024 key bytes, 2^21-1/2^21 value bytes in the thorough tier). '
+        'Empty things at every position: for every type the full value with each string / POD vector / container / pointer instance made empty '
+        'alone, in pairs, in random subsets (rt, sc); sq = 2..6 objects of random types saved one after another into ONE archive and loaded one '
+        'after another (read position after each = sum of the independent encoder lengths). Every case runs under a per-case watchdog in the '
+        'harness (1.5 s CPU, 30 s wall, RSS limit): an over-budget case is answered `<op> HANG ...` and is a violation with itself as replay. '
         'A case is non-trivial unless its archive is empty; distinct = distinct case lines.'
         % ctx.scale(160, 600))
     ctx.coverage['exhaustive'] = False
     ctx.coverage['exhaustive_parts'] = ['every truncation of every generated archive up to %d bytes' % ctx.scale(160, 600),
+                                        'every sequence of 1..3 objects over 7 types x {minimal, one-element} value saved into one archive (2954 sq cases)',
                                         'header 0..10 x 5 high-byte variants x 0..9 payload bytes x 6 types (3300 archives)']
     ctx.coverage['json_verdict_cases'] = nj
     # the extracted list functions are not tail recursive: give the model a big stack for the 2 MiB session values
@@ -1199,8 +1591,7 @@ def run(ctx):
             return
         # archive.cpp is compiled into the executable here too, with one UBSan check off: read_chunk/write_chunk of an EMPTY POD
         # vector call memcpy/append with a null pointer and length 0 (formally undefined, no access; see docs/C19.md, observations)
-        aexe, err = vlib.build_harness('C19_archive', ['C19_archive.cpp', os.path.join(vlib.REPO, 'src', 'archive.cpp')], asan=True,
-                                       extra=['-DC19_WITH_SERVICE', '-fno-sanitize=nonnull-attribute'])
+        aexe, err = build_split('C19_archive', asan=True, extra=['-DC19_WITH_SERVICE', '-fno-sanitize=nonnull-attribute', '-g0'], with_archive_cpp=True)
         if not aexe:
             ctx.broke('ASan harness build failed', err)
             return
